@@ -88,8 +88,8 @@ class Effects:
                         p = self.path(fi, t.value, n)
                         if p:
                             out.append(Write(p + '.' + t.attr, 'rebind', n.line, fn=fi.key))
-                    elif isinstance(t, ast.Name):
-                        # x += [..] on a list/dict alias mutates in place
+                    elif isinstance(t, ast.Name) and not getattr(ev[1], 'tsa_from_assign', False):
+                        # x += [..] on a list/dict alias mutates in place (`x = x + [..]` rebinds instead)
                         k = self.w.kinds(fi).of_name(t.id, n)
                         p = self._kpath(self.w.kinds(fi), k)
                         if p and isinstance(ev[1].op, (ast.Add, ast.BitOr)) and p != t.id:
